@@ -48,14 +48,19 @@ func c04Probes(rows []dbgen.Row) []int64 {
 
 func runC04(r *ev.Run) {
 	r.Rule = "every T1 table b-tree shape within bounds x 3 rowid sets x 2 layouts (separator = max of left / value in the gap) x every probe rowid {present, both neighbours, gap middle, last of gap (= separator), min64, max64, 0, -1, 1} through SelectRowid, PKSelect(alias pk) and Table.Rowid; oracle = the builder's logical rows; non-trivial = probes on images with interior pages"
-	b := quickBounds(r)
-	r.Set("bounds", fmt.Sprintf("%+v", b))
+	r.Set("bounds", fmt.Sprintf("%+v", allBounds(r)))
 	cols := []string{"a", "b", "c", "d", "e", "rowid"}
 	defer func() {
 		if c04Extra != nil {
 			c04Extra(r)
 		}
 	}()
+	for _, b := range allBounds(r) {
+		c04Shapes(r, b, cols)
+	}
+}
+
+func c04Shapes(r *ev.Run, b shapeBounds, cols []string) {
 	forTableShapes(r, b, func(si *ShapeImage) {
 		t := &si.Spec.Tables[0]
 		rows := si.Img.TableRows["t1"]
